@@ -1,9 +1,16 @@
 #!/bin/bash
-# run every check's thorough tier, print one summary line each
+# run every check's thorough tier on a private snapshot of /repo's working tree (so that seeded
+# changes applied to /repo meanwhile do not interfere); print one summary line each
+# usage: selftest/all_thorough.sh [check ids...]
 cd "$(dirname "$0")/.."
-for c in C11 C03 C14 C01 C04 C18 C20 C15 C13 C12 C19 C17 C07 C02 C05 C09 C10 C08 C06; do
+SNAP=/tmp/thorough_repo_$$
+mkdir -p $SNAP && rsync -a --exclude .git --exclude '*.pyc' /repo/ $SNAP/
+export OVC_REPO_ROOT=$SNAP
+LIST="${@:-C11 C03 C14 C01 C04 C18 C20 C15 C13 C12 C19 C17 C07 C02 C05 C09 C10 C08 C06}"
+for c in $LIST; do
   s=$(date +%s)
   bin/ovc check $c --tier thorough > /tmp/thorough_$c.log 2>&1; rc=$?
   echo "$c exit=$rc $(( $(date +%s) - s ))s :: $(grep '^ovc' /tmp/thorough_$c.log | tail -1)"
   grep -E '^(VIOLATION|UNDECIDED|CHECKER|VACUITY)' /tmp/thorough_$c.log | head -5
 done
+rm -rf $SNAP
